@@ -376,6 +376,22 @@ class Tracker:
             elif free_rej is not None and not (Fb & free_rej) and not (T & after_rej):
                 st = ("bool", (), False)        # false <=> rejected
             if st is not None:
+                # freshness: a verdict stored before a loop and branched on inside it may be stale (the subject can change between
+                # iterations): every cycle through a use of the variable must pass one of its definitions again
+                copies = {l}
+                for b in blocks:
+                    for s in b["stmts"]:
+                        if len(s["d"]) == 1 and s["rv"]["k"] == "use" and s["rv"]["a"][0] in ("cp", "mv") and s["rv"]["a"][1] == [l]:
+                            copies.add(s["d"][0])
+                stale = False
+                for b in blocks:
+                    t = b["term"]
+                    if t["k"] == "switch" and op_local(t["on"]) in copies:
+                        succ = tuple(d for d, _ in g.succ[b["id"]])
+                        if b["id"] in g.reach(succ, avoid=T | Fb):
+                            stale = True
+                if stale:
+                    continue
                 self.states.setdefault(l, set()).add(st)
                 added = True
         return added
@@ -670,7 +686,34 @@ def backward_calls(body, local):
     return seen, calls
 
 
+def _whole_aliases(body, seeds):
+    """seeds plus the locals that hold the same value whole: plain copies / moves, `&x`, re-borrows (no field projection).  After a
+    helper is inlined its parameter is such an alias of the caller's argument (engine/py/inline.py binds `param = use(arg)`)."""
+    S = set(seeds)
+    if not S:
+        return S
+    changed = True
+    while changed:
+        changed = False
+        for b in body.blocks:
+            if b["cleanup"]:
+                continue
+            for st in b["stmts"]:
+                if len(st["d"]) != 1 or st["d"][0] in S:
+                    continue
+                rv = st["rv"]
+                p = rv["a"][1] if rv["k"] == "use" and rv["a"][0] in ("cp", "mv") else rv.get("p") if rv["k"] == "ref" else None
+                if p and p[0] in S and all(e == "*" for e in p[1:]):
+                    S.add(st["d"][0])
+                    changed = True
+    return S
+
+
 def param_locals(F, body, index):
+    return _whole_aliases(body, _param_locals(F, body, index))
+
+
+def _param_locals(F, body, index):
     """Locals of `body` holding parameter #index (0-based, `self` counts) of the *source-level* function — by position,
     so renaming a parameter does not matter.  For the coroutine body of an `async fn` (or an `async move` block that is
     the whole body, as produced by #[async_trait]) the parameter is the capture built from the parent's argument local."""
@@ -831,3 +874,35 @@ def must_be_copy_of(body, local, roots, _seen=None):
         else:
             return False
     return True
+
+
+def copy_root(body, operand, limit=40):
+    """The place an operand is a plain copy of: follows single-definition `x = move y` / `x = copy y` chains (whole locals only) back
+    to the first place that is not a bare local with such a definition (`op.crdt_op`, a parameter, a call result).  Returns the place
+    list `[local, proj…]`, or None for constants."""
+    if operand[0] not in ("cp", "mv"):
+        return None
+    prep(body)
+    defs = {}
+    for b in body.blocks:
+        if b["cleanup"]:
+            continue
+        for st in b["stmts"]:
+            if len(st["d"]) == 1:
+                defs.setdefault(st["d"][0], []).append(st["rv"])
+        t = b["term"]
+        if t["k"] == "call" and len(t.get("d") or []) == 1:
+            defs.setdefault(t["d"][0], []).append(None)
+    place = list(operand[1])
+    for _ in range(limit):
+        if len(place) > 1:
+            return place
+        ds = defs.get(place[0], [])
+        if len(ds) != 1 or ds[0] is None:
+            return place
+        rv = ds[0]
+        if rv["k"] == "use" and rv["a"][0] in ("cp", "mv"):
+            place = list(rv["a"][1])
+        else:
+            return place
+    return place
